@@ -341,6 +341,9 @@ impl Polynomial<Cmplx> {
             let abp = gp.abs();
             let abm = gm.abs();
             if abp < abm { gp = gm; }
+            // Right next to a root at zero g * g overflows (abp, abm become inf or NaN): the step can no
+            // longer be computed and the NaN must not be mistaken for the stagnation case below
+            if !( abp.is_finite() && abm.is_finite() ) { return; }
             let dx = if f64::max( abp, abm ) > 0.0 { 
                 Cmplx::new( m as f64, 0.0 ) / gp
             } else {
